@@ -240,6 +240,17 @@ theorem C09_cache_keyed_by_label_only :
   constructor <;> decide
 
 
+/-- the scan drivers go THROUGH `parallelise`: without a cache, `scanWith` (the rows handed to the `parallelise` model, results
+    unpickled in the parent) is the sequential scan resp. the pool scan the theorems above talk about — for either
+    variant of the row task, every schedule -/
+theorem C09_scan_through_parallelise (cf : Bool) (s : Sched) (hn : 0 < s.n) (hT : s.timedOut = []) (w : Worker) (h : Heap)
+    (cell : Nat) (rows : List (Label × Row)) :
+    (scanWith cf false s w h cell rows none).1 = seqScanWith cf w h cell rows ∧
+    (scanWith cf true s w h cell rows none).1 = parScanWith cf s.assign s.n w h cell rows := by
+  unfold scanWith
+  simp only [Option.isSome_none, Bool.false_and, Bool.false_eq_true, if_false, if_true]
+  exact ⟨by rw [seqScanCache_nocache], scanPar_nocache cf s hn hT w h cell rows⟩
+
 /-! ### facts regenerated from scan.py / mc.py / parallel.py on every run (`translate/c09.py` → `Generated/C09Facts.lean`) -/
 
 open Mxl.Generated.C09 in
